@@ -12,7 +12,7 @@ import os
 from collections import Counter
 
 from lib import mir, sym, panics
-from lib.keys import Ordinals
+from lib.keys import Ordinals, fn_key
 
 HERE = os.path.dirname(os.path.abspath(__file__))
 TABLE = os.path.join(os.path.dirname(HERE), "tables", "panic_reviewed.json")
@@ -97,7 +97,7 @@ def run(ctx, F):
             n_sites += 1
             kinds[s.kind if s.kind != "assert" else s.what] += 1
             descr = panics.describe(S, s)
-            key = ords.key(f"{d}|{descr}")
+            key = ords.key(f"{fn_key(d, prog)}|{descr}")
             where = f"{b.file}:{s.line}"
             if d not in seen_nostatic:
                 ctx.ok("F1-panic", key, None, status="discharged")
